@@ -141,7 +141,7 @@ class Prog:
         self.node, self.ref, self.dsk = node, ref, dsk
 
 
-def source(w, E, tag, blocks, lo=1, shape=None, hi=None, chunks=None):
+def source(w, E, tag, blocks, lo=1, shape=None, hi=None, chunks=None, dtype="f8"):
     """FromArray-like source: symbolic chunks (or given `shape` per axis as sums), blocks = NumPy slices of a leaf"""
     import dask_array.io._from_array as FAm
 
@@ -156,8 +156,8 @@ def source(w, E, tag, blocks, lo=1, shape=None, hi=None, chunks=None):
             E.assume(sum(c) == shape[a])
         chunks.append(c)
     chunks = tuple(chunks)
-    arr = leaf(tag, tuple(sum(c) for c in chunks), dtype="f8")
-    meta = np.empty((0,) * len(blocks))
+    arr = leaf(tag, tuple(sum(c) for c in chunks), dtype=dtype)
+    meta = np.empty((0,) * len(blocks), dtype=dtype)
     node = w.space.make(FAm.FromArray, arr, chunks, _symx_attrs=dict(_meta=meta, chunks=chunks, _name=tag))
     cs = [cumsum0(c) for c in chunks]
     dsk = {}
@@ -728,9 +728,9 @@ def _add_where_out(w, E, blocks, mask_blocks, mask_axes=None, pre=False):
     y = source(w, E, "y", blocks, chunks=x.node.chunks)
     o = source(w, E, "o", blocks, chunks=x.node.chunks)
     if mask_axes is None:
-        m = source(w, E, "m", mask_blocks, shape=[sum(c) for c in x.node.chunks])
+        m = source(w, E, "m", mask_blocks, shape=[sum(c) for c in x.node.chunks], dtype="bool")
     else:
-        m = source(w, E, "m", mask_blocks, shape=[sum(x.node.chunks[a]) for a in mask_axes])
+        m = source(w, E, "m", mask_blocks, shape=[sum(x.node.chunks[a]) for a in mask_axes], dtype="bool")
     if pre:
         x = p_elemwise(w, plus_one_ufunc, x)
     return p_elemwise(w, np.add, x, y, _where=m, _out=o)
